@@ -323,12 +323,14 @@ class Sig(Base):
         return {self.name: {"source": f"vf:{self.name}", "dtype": "number", "shape": []}}
 
     def subscribe(self, cb, run=True, **kw):
+        self.world.maybe_raise(self.name, "subscribe")
         self.world.log(self.name, "subscribe", id(cb))
         self.subs.append(cb)
         if run:
             cb()
 
     def clear_sub(self, cb):
+        self.world.maybe_raise(self.name, "clear_sub")  # a failing removal leaves the callback subscribed
         self.world.log(self.name, "clear_sub", id(cb))
         self.subs = [c for c in self.subs if c is not cb]
 
